@@ -7,7 +7,7 @@ from ..prims import requires, guard_strs, guarded_any, must_pass
 EXPLANATION = ('Sibling agreement between the function that dequeues work and the function that predicts when work is available '
                '(same engine fields consulted; same outcome for the pending-write, high-priority, slow-start, receive-maximum and '
                'non-empty-queue atoms), and timer coverage: every timer field a state\'s service function compares with the clock is '
-               'folded into that state\'s next-service-time function.')
+               'folded into that state\'s next-service-time function. Added in round 2: deadline timers (CONNACK deadline, PINGRESP deadline, ack-timeout heap) are consulted on every return path of the state\'s next-service-time function, in particular while a write completion is pending.')
 ASSUMPTIONS = ['not decided: bounded progress against a responsive broker and absence of "service me now" spinning (liveness); '
                'only the mirror and timer-coverage necessary conditions']
 P = 'src/protocol.rs'
@@ -52,8 +52,8 @@ def run(ctx):
     rtp = prims.rets_after(tp, [RM, r'\.packet is Publish$', r'^!\(.*\.qos == QualityOfService::AtMostOnce\{\}\)$'])
     ctx.ob(rtp == {'None'}, 'next-time completeness: at the receive maximum with a QoS>0 publish at the head the answer is always None (%s)' % sorted(rtp or []), 'mirror|recvmax|next-time-complete', loc=tp.loc())
     hi = var_inits(tp, 'head')
-    first = [show(e) for b, e in hi if not guarded_any(tp, b, [r'^Option::is_none\(head\)$'])]
-    second = [show(e) for b, e in hi if guarded_any(tp, b, [r'^Option::is_none\(head\)$'])]
+    first = [show(e) for b, e in hi if not guarded_any(tp, b, [r'^head is None$'])]
+    second = [show(e) for b, e in hi if guarded_any(tp, b, [r'^head is None$'])]
     ctx.ob(first == ['VecDeque::front(self.resubmit_operation_queue)'] and second == ['VecDeque::front(self.user_operation_queue)'],
            'next-time examines the head of the resubmit queue, falling back to the user queue only when it is empty (same order as dequeue)', 'mirror|recvmax|head-order', loc=tp.loc())
     for q in ('resubmit_operation_queue', 'user_operation_queue'):
@@ -96,6 +96,8 @@ def run(ctx):
         lt = [g for i in fv.live_blocks() for g in guard_strs(fv, i) if re.search(r'PartialOrd::lt|<', g)]
         ctx.ob(bool(lt), '%s compares the two time points and keeps the earlier' % nm, 'fold-min|' + nm, loc=fv.loc())
 
+    for nm_, ok_, arg_, v_ in prims.clock_updates(F, ('get_next_service_timepoint', 'service')):
+        ctx.ob(ok_, 'ProtocolState::%s adopts the caller\'s time first, so "service me now" answers and due tests refer to the present call' % nm_, 'clock|' + nm_, loc=v_.loc() if v_ else None, rule='R-C08-2')
     # ------------------------------------------------------------ R-C08-3 (added after seed C07-2)
     ctx.rule('R-C08-3', 'T3 must-pass-through', 'deadline timers - whose expiry needs no socket write (CONNACK deadline, PINGRESP deadline, ack-timeout heap) - are consulted on every path of the state\'s next-service-time function, in particular while a write completion is pending; only send-type work (next ping, queues) may be skipped then')
     DEADLINES = (('get_next_service_timepoint_pending_connack', 'connack_timeout_timepoint'), ('get_next_service_timepoint_connected', 'ping_timeout_timepoint'),
